@@ -280,6 +280,33 @@ def match(rule, path):
     return {'values': values, 'texts': texts, 'ends': ends, 'params': params}
 
 
+def wildcard_starts(rule, path):
+    """Positions in norm(path) at which the left-to-right scan of `rule` attempts a wildcard (the scan
+    stops at the first segment that fails).  Diagnostic helper: lets a case module say whether a given
+    character of the request path sits exactly where a wildcard of some rule begins."""
+    p = norm(path)
+    i = 0
+    out = []
+    first = True
+    for k, seg in enumerate(rule):
+        if is_lit(seg):
+            text = seg[1][1:] if first else seg[1]
+            first = False
+            if p[i:i + len(text)] != text:
+                return out
+            i += len(text)
+            continue
+        if i >= len(p):
+            return out
+        out.append(i)
+        nxt = rule[k + 1][1] if k + 1 < len(rule) else ''
+        got = _take(seg, nxt, p[i:])
+        if got is None:
+            return out
+        i += len(got[0])
+    return out
+
+
 # ----------------------------------------------------------------------------- selecting among rules
 def _beats(ta, tb):
     """Pattern ta beats tb: literal (ta) against wildcard (tb) at the first difference."""
